@@ -131,8 +131,7 @@ theorem extendBackward_eq {m : Graph} (hm : MinShape m) (hne : ∃ n : String, n
   obtain ⟨n, hn⟩ := hne
   obtain ⟨r, hr⟩ := (mem_nodes_iff _ _).mp hn
   unfold extendBackward
-  simp only [maxBackwardLag_isSome hr (hm.nonpos n r hr), Bool.false_eq_true, if_false, bind, Except.bind, pure,
-    Except.pure]
+  simp only [maxBackwardLag_isSome hr (hm.nonpos n r hr), Bool.false_eq_true, if_false, bind, Except.bind]
   have h1 := nodeLoop_fold hm.inv (backNodePairs m b) (backNodePairs_dom hm b)
   unfold backNodePairs at h1
   rw [h1]
@@ -188,9 +187,8 @@ theorem extendGraph_eq (h : TsHyp g) (hc : TemplateConsistent g) (idx : List Str
     extendGraph g idx (b.map Int.ofNat) (f.map Int.ofNat) iap = .ok (extPure m b f iap) := by
   have hm := minShape_minimal h hc idx hmin
   obtain ⟨hi1, hx1⟩ := x1_props hm b iap
-  have nn : ∀ k : Nat, decide (Int.ofNat k < 0) = false := fun k => by
-    have : ¬ (Int.ofNat k < 0) := Int.not_lt.mpr (Int.ofNat_zero_le k)
-    simp [this]
+  have nn : ∀ k : Nat, decide (Int.ofNat k < 0) = false := fun k =>
+    decide_eq_false (Int.not_lt.mpr (Int.natCast_nonneg k))
   unfold extendGraph extPure
   by_cases he : m.nodes.isEmpty ∧ m.edges.isEmpty
   · cases b <;> cases f <;>
@@ -870,7 +868,7 @@ theorem extend_negative (g : Graph) (idx : List String) (b f : Option Int) (iap 
     | some y =>
       by_cases hy : y < 0
       · simp [hy, bind, Except.bind, throw, throwThe, MonadExceptOf.throw]
-      · simp [hy, hx, bind, Except.bind, throw, throwThe, MonadExceptOf.throw, pure, Except.pure]
+      · simp [hy, hx, bind, Except.bind, throw, throwThe, MonadExceptOf.throw]
 
 /-! ### a concrete input that meets the hypotheses (non-vacuity) -/
 
